@@ -21,7 +21,7 @@ def _closure_ret(f, t):
     if cb is None:
         return None, None
     tb = TermBuilder(cb, closure_env=True)
-    return tb.term(RET), (cb.local_name(2) or "_2")
+    return normalize(f, tb.term(RET), 1), (cb.local_name(2) or "_2")
 
 
 def _is_param(t, pname):
